@@ -694,6 +694,19 @@ func runIngress(prop string, r *common.Rand, tier string, o *common.Out, replay 
 		authTail(o, "replay", k, p[2] == "true")
 		return
 	}
+	if strings.HasPrefix(replay, "refauth|") {
+		runSrv("C15", r, tier, o, replay)
+		return
+	}
+	if replay == "" && prop == "C15" {
+		k := 0
+		for _, ow := range []bool{false, true} {
+			for _, between := range []bool{false, true} {
+				k++
+				srvRefusedThenAuth(o, fmt.Sprintf("refauth%d", k), ow, between)
+			}
+		}
+	}
 	if replay == "" && prop == "C15" {
 		for i, k := range []int{1, 4, 12, 16, 17, 40, -1} {
 			authTail(o, fmt.Sprintf("at%d", i), k, i%3 == 2)
